@@ -81,7 +81,11 @@ SIGMA = NUM + KW + DATE + IND + WS + OTHER
 FLT = ["1", ".", "e", "-", ":", "_"]  # reaches the sexagesimal float and exponent alternatives
 # characters that are legal in a str value but special to a YAML reader: the Unicode line breaks NEL / LS / PS, DEL and
 # a C1 control, a non-character, ESC, NUL, the byte order mark, the no-break space, CR - with a letter and a space
-CTL = ["\x85", "\u2028", "\u2029", "\x7f", "\x9f", "\ufffe", "\x1b", "\x00", "\ufeff", "\xa0", "\r", "a", " "]
+# ... and the code points at the edges of the planes: the first and the last one outside the Basic Multilingual Plane and
+# an emoji (JSON escapes for them are UTF-16 surrogate PAIRS, a YAML emitter needs the eight-digit escape), and the last
+# BMP character a YAML reader accepts
+CTL = ["\x85", "\u2028", "\u2029", "\x7f", "\x9f", "\ufffe", "\x1b", "\x00", "\ufeff", "\xa0", "\r", "a", " ",
+       "\U00010000", "\U0001f680", "\U0010ffff", "\ufffd"]
 MID = (
     ["1", ".", "e", "-", ":", "_", "~", "null", "No", "y", "inf", "2001-01-01", "T00:00:00"]
     + ["{", "[", ",", "#", "&", "*", "!", "|", ">", "'", '"', "%", "?", " ", "\n", "z"]
@@ -272,6 +276,8 @@ def scalar_worker(item):
     s, mode, quick = item
     out = {"s": s, "accepted": 0, "rejected": 0, "rt": 0, "ops": 0, "devs": [], "text": None, "escapes": 0}
     for pos in POSITIONS:
+        if quick and mode == "json" and pos in JSON_SAME_SHAPE_POSITIONS:
+            continue  # a json-mode parser writes json only: same text shape as the `str` position (see above)
         r = scalar_case(s, pos, mode, quick)
         for k in ("accepted", "rejected", "rt", "ops", "escapes"):
             out[k] += r[k]
@@ -402,6 +408,11 @@ def run_case(case):
     if case.get("layer") == "scalar":
         r = scalar_case(case["s"], case["pos"], case.get("mode", "yaml"), case.get("quick", True))
         return [{"signature": s, "detail": d} for s, d in r["devs"]]
+    if case.get("layer") == "history":
+        from mc.checks import c01_history
+
+        r = c01_history.history_case(case)
+        return [{"signature": s, "detail": d} for s, d in r["devs"]]
     from mc.checks import c01_typed
 
     r = c01_typed.typed_case(case)
@@ -440,6 +451,8 @@ def explore(ctx):
     ts_respelt = timestamps_respelt_by_second_reader(ts)
     ctx.count("scalar.timestamp_shaped_strings", len(ts))
     ctx.count("scalar.timestamp_shaped_strings_a_second_yaml_reader_would_respell_or_reject", ts_respelt or 0)
+    astral = [s for s in strings if any(ord(ch) > 0xFFFF for ch in s)]
+    ctx.count("scalar.strings_with_a_character_outside_the_BMP", len(astral))
     ctx.count("scalar.strings_json_mode", len(json_mode_strings))
     ctx.count("scalar.roundtrips", scalar_rt)
     ctx.count("scalar.accepted_configs", tot["accepted"])
@@ -453,7 +466,12 @@ def explore(ctx):
     # ---- layer 2: typed
     typed = c01_typed.explore_typed(ctx, nontrivial)
 
-    evaluations = scalar_rt + typed["rt"]
+    # ---- layer 3: one used parser whose defaults change between serialisations
+    from mc.checks import c01_history
+
+    hist = c01_history.explore_history(ctx, nontrivial)
+
+    evaluations = scalar_rt + typed["rt"] + hist["rt"]
     ctx.cover(
         evaluations=evaluations,
         distinct_nontrivial=len(nontrivial),
@@ -475,9 +493,10 @@ def explore(ctx):
             "positions": POSITIONS,
             "formats": list(YAML_FORMATS),
             "typed": typed["bounds"],
+            "history": hist["bounds"],
         },
-        states=scalar_states + typed["states"],
-        transitions=tot["ops"] + typed["ops"],
+        states=scalar_states + typed["states"] + hist["states"],
+        transitions=tot["ops"] + typed["ops"] + hist["ops"],
         traces_validated_against_impl=evaluations,
         resolver_alternatives=cov["alternatives"],
         resolver_alternatives_hit=cov["hit"],
@@ -493,9 +512,10 @@ def explore(ctx):
     ctx.require(not cov["inconsistent"], f"resolver patterns split into alternatives consistently {cov['inconsistent'][:2]}")
     ctx.require(not cov["missing"], f"every alternative of every resolver pattern is matched by an enumerated string (missing: {cov['missing'][:4]})")
     ctx.require(ts_respelt is None or ts_respelt >= 150, f"timestamp slot product: at least 150 strings that a second YAML reader would re-spell or reject if written unquoted ({ts_respelt})")
+    ctx.require(len(astral) >= 90, f"scalar layer: at least 90 strings hold a character outside the Basic Multilingual Plane ({len(astral)})")
     ctx.require(len(cov["tables"]) >= 2, "resolver tables of both the stock dumper and jsonargparse's loader were read")
     ctx.require(tot["accepted"] > 50000, "scalar layer: more than 50000 accepted (string, position) configurations")
     ctx.require(quoted > 500, "scalar layer: more than 500 strings needed quoting by the yaml dumper")
     ctx.require(scalar_rt > 20000, "scalar layer: more than 20000 round trips")
-    for what, ok in typed["guards"]:
+    for what, ok in typed["guards"] + hist["guards"]:
         ctx.require(ok, what)
